@@ -413,7 +413,7 @@ func main() {
 		run(rc)
 		h.ReplayReport()
 	}
-	grid := []string{"0.9.0", "1.0.0-alpha", "1.0.0-alpha.1", "1.0.0-rc.1", "1.0.0", "1.0.0+b1", "1.0.1", "1.2.0", "1.10.0", "2.0.0", "2.0.0-beta.2", "10.0.0"}
+	grid := []string{"0.9.0", "1.0.0-alpha", "1.0.0-alpha.1", "1.0.0-rc.1", "1.0.0", "1.0.0+b1", "1.0.1", "1.2.0", "1.10.0", "2.0.0", "2.0.0-beta.2", "10.0.0", "1.0.0-rc.1+b7", "2.0.0-beta.2+exp.1"}
 	bad := []string{"", "x.y.z", "1..0"}
 	// "cannot parse" is relative to the comparer: the grid must be classified identically by the
 	// default comparer and by the reference parser, otherwise the grid (not the code) is wrong.
